@@ -16,7 +16,7 @@ FAULT_CLASSES = [
     "wrong-type-definition", "wrong-dimension-term", "term-defines-no-unit",
     "derive-wrong-units", "derive-wrong-count", "derive-on-base-type",
     "bad-definition-object", "quantum-without-ref",
-    "derived-type-taken-symbol",
+    "derived-type-taken-symbol", "invalid-type-definition-term",
 ]
 
 
@@ -269,6 +269,32 @@ def _make_fault(rng, w: World, cls, fresh):
                                       "id": name, "k": k}], new_type=name,
                      desc="class %s(quantum=0.5) without reference unit" %
                      name)
+    if cls == "invalid-type-definition-term":
+        # a class statement whose define_as is a term, but not one of
+        # quantity types only: a numeric factor in it, or units in place of
+        # the types; with an explicit (free) reference-unit symbol
+        if len(with_ref) < 1:
+            return None
+        t1, t2 = rng.choice(with_ref), rng.choice(with_ref)
+        sym = fresh("s")
+        name = fresh("T")
+        kind = rng.choice(["number", "units", "number-first"])
+        if kind == "units":
+            term = ["term", [[U(t1.ref), 1], [U(t2.ref), rng.choice([1, -1,
+                                                                      2])]]]
+        elif kind == "number":
+            term = ["term", [[V(t1.name), 2], [["D", "2"], 1]]]
+        else:
+            term = ["term", [[["i", 3], 1], [V(t1.name), 1], [V(t2.name),
+                                                            -2]]]
+        kw = {"define_as": term, "ref_unit_symbol": ["s", sym]}
+        follow = Decl("scaled", t=t1.name, sym=sym, k=F(5),
+                      parent=t1.ref)
+        return Fault(cls, lambda k: [{"cls": {"name": name, "kw": kw},
+                                      "id": name, "k": k}],
+                     new_syms=[sym], new_type=name, followup=follow,
+                     desc="class %s(define_as=<term with %s>, "
+                     "ref_unit_symbol=%r)" % (name, kind, sym))
     if cls == "bad-definition-object":
         if not with_ref:
             return None
